@@ -600,6 +600,11 @@ func (c *Conn) Write(p []byte) (int, error) {
 }
 
 func (c *Conn) Close() error {
+	// a goroutine of un-instrumented code the simulator has not seen yet (crypto/tls
+	// closes the connection from a helper goroutine when the handshake context
+	// expires) becomes a task here: two of them woken by the clock at the same
+	// instant must not close in an order nobody decided. Nothing changes for tasks.
+	_ = simrt.AdoptSoft(c.label()+":close", c.group)
 	c.mu.Lock()
 	c.CloseCalls++
 	if c.closed {
